@@ -89,7 +89,7 @@ class C10(Check):
                 "Pox.C10.ctl_disconnect_stops", "Pox.C10.ctl_no_disconnect_same", "Pox.C10.ctl_disconnect_persists",
                 "Pox.C10.sw_trace_is_feed", "Pox.C10.sw_answered_or_closed", "Pox.C10.sw_replies_only_for_skips",
                 "Pox.C10.ctl_trace_is_feed", "Pox.C10.ctl_accounted", "Pox.C10.ctl_task_contained", "Pox.C10.sw_deliver_window_only",
-                "Pox.C10.round_order_irrelevant", "Pox.C10.round_independent", "Pox.C10.ctl_round_contained", "Pox.C10.ctl_round_is_serveRound"]
+                "Pox.C10.round_order_irrelevant", "Pox.C10.round_independent", "Pox.C10.ctl_round_contained", "Pox.C10.ctl_round_is_serveRound", "Pox.C10.ctl_round_completes"]
     anchors = [("pox/openflow/of_01.py", "Connection.read"), ("pox/openflow/of_01.py", "OpenFlow_01_Task.run"),
                ("pox/datapaths/switch.py", "OFConnection.read"), ("pox/datapaths/switch.py", "OFConnection._error_handler"),
                ("pox/datapaths/switch.py", "OFConnection._extract_message_xid"), ("pox/lib/ioworker/__init__.py", "RecocoIOLoop.run"),
@@ -108,7 +108,8 @@ class C10(Check):
                   "answers each Select they yield. What the ~50 decoders do with garbage is NOT modelled: it is observed, fed to the model as a table, and checked by the oracle "
                   "(window independence, exceptions contained).")
     trusted_base = ["model Model/Framing.lean (ctlLoop/swLoop) hand-written; tied by this correspondence run", "answering the Select operations that the two real I/O loop generators yield (the harness plays the select hub)"]
-    assumptions = ["message handlers that disconnect the connection in the middle of a read are covered by ctl_disconnect_stops / ctl_disconnect_persists and the `disc` cases; what a handler does beyond raising or disconnecting is outside the model",
+    assumptions = ["select is level-triggered: a connection whose bytes were not read in a round (the controller loop abandons the rest of a round when one read raises) is reported readable again; the model's serveRound is the round together with those completions",
+                   "message handlers that disconnect the connection in the middle of a read are covered by ctl_disconnect_stops / ctl_disconnect_persists and the `disc` cases; what a handler does beyond raising or disconnecting is outside the model",
                    "a message handler that RAISES is caught by both read loops (cases `hraise`); in the model handlers do not exist, so a raising handler and a returning one are the same step; a failure inside OFConnection._error_handler itself is not modelled",
                    "sw_contained (no branch of swLoop yields `dead`) and siblings_untouched (feedAt is List.set) hold by construction of the model; that the real loops behave like it is what every run tests by driving the real RecocoIOLoop.run / OpenFlow_01_Task.run generators with three connections",
                    "the no-over-read theorems constrain the offset a decoder reports; that a decoder does not PEEK past its window is the hypothesis WindowLocal (theorem sw_deliver_window_only), proved of the real decoders on well-formed messages by C01 and tested on every delivered window here (re-decoding it followed by other bytes)",
